@@ -240,9 +240,9 @@ class G:
         self.tier = tier
         self.n = 0
         self.eids = ["https://e%d.c11.example/ent" % i for i in range(rng.randint(2, 4))]
-        # which departure of the code from the property the case may exercise (never both: the
-        # classifier must be able to name ONE root cause)
-        self.mode = rng.choice(["clean", "clean", "f9", "f11"])
+        # whether the case may exercise the known departure of the code from the property (F9); MDQ
+        # answers with a bad signature (the input class of F11, fixed by 85b6178b) occur in every mode
+        self.mode = rng.choice(["clean", "clean", "f9"])
         self.mdq_cert = {}
         self.now = S.NOW0 + rng.randrange(0, 100000)
 
@@ -434,7 +434,7 @@ class G:
         return qs
 
     def adjust(self, steps):
-        """keep the case inside its mode: at most one of the two known departures can be exercised"""
+        """keep the case inside its mode: unsigned documents meet a certificate only in mode f9"""
         for st in steps:
             op = st["op"]
             for sp in op.get("specs", []):
@@ -449,8 +449,6 @@ class G:
                 f = m["fetch"]
                 if f["t"] == "doc" and self.mdq_cert.get(m["src"]):
                     if f["doc"]["sig"] == "unsigned" and self.mode != "f9":
-                        f["doc"]["sig"] = "valid"
-                    if f["doc"]["sig"] in ("tampered", "wrongkey") and self.mode != "f11":
                         f["doc"]["sig"] = "valid"
 
 
@@ -835,14 +833,15 @@ def _features(case):
 
 
 def finding_key(case, impl, lean):
-    """A failing history is attributed to a known root cause only if (a) it contains an input of that
-    class and none of the other, and (b) the implementation's observations are exactly what the
-    reference machine gives once that ONE departure is granted (computed by the Lean driver)."""
+    """A failing history is attributed to a root-cause class only if (a) it contains an input of that
+    class and (b) the implementation's observations are exactly what the reference machine gives once
+    that ONE departure is granted (computed by the Lean driver).  F9 is a `known` record; the F11 class
+    is `fixed` (85b6178b): naming it suppresses nothing, it tells the reader that the old defect is back."""
     why = lean.get("why") or {}
     f9, f11 = _features(case)
-    if f9 and not f11 and why.get("holds_if_unsigned_passes") is True:
+    if f9 and why.get("holds_if_unsigned_passes") is True:
         return "C11/unsigned-document-served-despite-cert"
-    if f11 and not f9 and why.get("holds_if_mdq_stores_first") is True:
+    if f11 and why.get("holds_if_mdq_stores_first") is True:
         return "C11/mdq-failed-verification-leaves-entity"
     return None
 
